@@ -19,7 +19,7 @@ A2 == ev.a[2]
 Srt(q) == SortSeq(q, LAMBDA a, b : a < b)
 
 Outcomes(s) ==
-  CASE ev.e = "create"     -> {HCreate(A1, A2)}
+  CASE ev.e = "create"     -> {HCreate(A1, A2, ev.a[3])}
     [] ev.e = "insert"     -> HInsertSet(s, A1, A2)
     [] ev.e = "get"        -> {HGet(s, A1)}
     [] ev.e = "get_direct" -> {HGetDirect(s, A1)}
@@ -60,7 +60,9 @@ Resync == LET knd == IF ev.e = "create" THEN A1 ELSE kind
                           THEN ev.s.keys[CHOOSE i \in 1 .. Len(ev.s.keys) : Norm(knd, ev.s.keys[i]) = x]
                           ELSE CHOOSE k \in live : Norm(knd, k) = x
           IN /\ kind' = knd /\ nk' = n
-             /\ map' = [x \in {Norm(knd, k) : k \in live} |->
+             /\ map' = IF ev.e = "create" THEN HCreate(A1, A2, ev.a[3]).s.map ELSE
+                       \* (filler entries outside the observed key universe are kept as they were)
+                       [x \in DOMAIN map \ {Norm(knd, k) : k \in 0 .. n - 1} |-> map[x]] @@ [x \in {Norm(knd, k) : k \in live} |->
                           [k |-> spell(x), v |-> ev.s.vals[(CHOOSE k \in live : Norm(knd, k) = x) + 1]]]
 
 TInit == /\ kind = "none" /\ nk = 0 /\ map = <<>> /\ res = R(NoVal, NoVal, <<>>, <<>>)
